@@ -24,8 +24,8 @@ struct FileSpec {
     lines: Vec<Line>,
 }
 
-const DIRS: &[&str] = &["", "sub", "sub/deep", "other dir", "dé", "c:", "v1.2"];
-const NAMES: &[&str] = &["a.ds", "b.ds", "lib.ds", "my file.ds", "é.ds", "util.ds", "x.y.ds", "m:util.ds", "-x.ds", "~t.ds"];
+const DIRS: &[&str] = &["", "sub", "sub/deep", "other dir", "dé", "c:", "v1.2", "Sub", "SUB/deep"];
+const NAMES: &[&str] = &["a.ds", "b.ds", "lib.ds", "my file.ds", "é.ds", "util.ds", "x.y.ds", "m:util.ds", "-x.ds", "~t.ds", "Util.ds", "A.ds", "LIB.DS"];
 
 fn rel_path(from_dir: &str, to: &str) -> String {
     // relative path from directory `from_dir` to file `to` (both relative to the case root)
